@@ -294,6 +294,9 @@ class TlSchemas:
                         i += 4
                         result[field] = []
                         for _ in range(length):
+                            if i >= len(data):
+                                # the count is read from the input: never loop past the bytes that are actually there
+                                raise TlError(f'vector of {length} elements does not fit in the remaining {len(data)} bytes')
                             if sch:
                                 deser, j = self.deserialize(data[i:], False, sch.args)
                             else:
